@@ -127,10 +127,18 @@ def generate(tier, rng):
         yield {'kind': 'nfi', 'start': s, 'count': 20}
     for _ in range(300 if quick else 3000):
         yield {'kind': 'rnf', 'kf': lib.hx(_keepfile(rng, _pop(rng, 6, identifiers=False)))}
-    nfac = 2000 if quick else 20000
+    for c in gen_factory(rng, 2000 if quick else 20000):
+        yield c
+    for c in gen_writer(rng, 300 if quick else 3000):
+        yield c
+    for c in gen_cli(rng, 50 if quick else 600):
+        yield c
+
+
+def gen_factory(rng, nfac):
     for i in range(nfac):
         r = rng.random()
-        if i % (nfac // 8) == 0:
+        if i % max(1, nfac // 8) == 0:
             n = rng.randrange(1500, 3000)
         elif r < 0.7:
             n = rng.randrange(1, 12)
@@ -141,13 +149,19 @@ def generate(tier, rng):
         names = _pop(rng, n, identifiers=rng.random() < 0.8)
         ka, kf = _cfg(rng, names)
         yield {'kind': 'factory', 'ka': ka, 'kf': None if kf is None else lib.hx(kf), 'names': [lib.hx(x) for x in names]}
-    for i in range(300 if quick else 3000):
+
+
+def gen_writer(rng, n_cases):
+    for i in range(n_cases):
         n = rng.randrange(1, 40) if i % 25 else rng.randrange(800, 1500)
         names = [x for x in _pop(rng, n) if x not in KEYWORDS]
         ka, kf = _cfg(rng, names)
         yield {'kind': 'writer', 'ka': ka, 'kf': None if kf is None else lib.hx(kf), 'names': [lib.hx(x) for x in names],
                'shape': rng.randrange(1 << 30)}
-    for i in range(50 if quick else 600):
+
+
+def gen_cli(rng, n_cases):
+    for i in range(n_cases):
         for kind in ('cli-luamin', 'cli-build'):
             names = [x for x in _pop(rng, rng.randrange(1, 30), ascii_only=True) if x not in KEYWORDS]
             ka, kf = _cfg(rng, names)
@@ -539,15 +553,14 @@ def search(ctx, budget):
     t0 = time.time()
     viol, n = [], 0
     mod = __import__('props.c02', fromlist=['x'])
-    def one_kind(k, seed):
-        return (c for c in generate('thorough', random.Random(seed)) if c['kind'] == k)
-    gens = [one_kind(k, ctx['seed'] + 1 + i) for i, k in enumerate(('factory', 'writer', 'cli-luamin', 'cli-build'))]
-
     def mixed():
         while True:
-            for g in gens:
-                for _ in range(10):
-                    yield next(g)
+            for c in gen_factory(rng, 40):
+                yield c
+            for c in gen_writer(rng, 10):
+                yield c
+            for c in gen_cli(rng, 5):
+                yield c
     gen = mixed()
     try:
         while time.time() - t0 < budget and not viol:
